@@ -113,3 +113,29 @@ Proof.
   unfold validate_spec_raw. rewrite validate_spec_accepts. unfold accepts. cbn [vs_v4 vs_v6 vs_hb vs_sel].
   destruct sel as [ts|]; cbn [option_map]; [rewrite vsel_of_raw_ok|]; reflexivity.
 Qed.
+
+(* ------------------------------------------------------------------ validation and the map key (C18 meets C17) *)
+(* A matchExpressions requirement that validation accepts is one labels.NewRequirement accepts -- hence, by the round trip
+   (Lbl_proofs), one that gets a map key unless it has the D23 shape -- PROVIDED its values are label values and, for Gt / Lt,
+   an integer: exactly what validation does not look at.  (A ClusterCIDR that passes validation but fails one of these is
+   rejected by the controller when it is created: C17_unrepresentable_selector_rejected.) *)
+Definition req_of_raw (r : rawreq) (op : selop) : req := mkReq (rr_key r) op (rr_vals r).
+
+Theorem validated_requirement_is_accepted r op :
+  rr_op r = Some op -> rawreq_ok r = true -> forallb valid_value (rr_vals r) = true ->
+  (match op with OpGt | OpLt => forallb (fun v => is_some (parse_int64 v)) (rr_vals r) = true | _ => True end) ->
+  new_req_ok (req_of_raw r op) = true.
+Proof.
+  intros Hop Hok Hv Hi. unfold rawreq_ok in Hok. rewrite Hop in Hok. apply andb_true_iff in Hok. destruct Hok as [Hk Hc].
+  unfold new_req_ok, req_of_raw. cbn [rkey rvals rop]. rewrite Hk, Hv. cbn [andb].
+  destruct op; destruct (rr_vals r) as [|v [|v2 l]]; cbn in *; try reflexivity; try discriminate.
+  - rewrite andb_true_r in Hi. exact Hi.
+  - rewrite andb_true_r in Hi. exact Hi.
+Qed.
+
+(* what validation does not look at, by example: each of these passes validation and is refused by NewRequirement *)
+Example validation_does_not_look_at_values :
+  let r1 := mkRaw [122] (Some OpIn) [[97; 32; 98]] in      (* z in ("a b") *)
+  let r2 := mkRaw [122] (Some OpGt) [[97]] in               (* z > a *)
+  rawreq_ok r1 = true /\ new_req_ok (req_of_raw r1 OpIn) = false /\ rawreq_ok r2 = true /\ new_req_ok (req_of_raw r2 OpGt) = false.
+Proof. vm_compute. repeat split. Qed.
